@@ -98,6 +98,7 @@ class Sym:
         self.lets = {}        # lid -> init expr for immutable single lets
         self.ranges = {}      # loop var atom -> (lo poly, hi poly)
         self.loopvars = {}    # lid -> atom
+        self.opaque = {}      # lid -> atom name: lets deliberately kept as one symbol (see keep_as_atom)
         muts = set()
         for x in walk(body):
             if x.get("k") == "Let" and x["pat"].get("k") == "PBind" and "init" in x:
@@ -115,6 +116,13 @@ class Sym:
                     self.loopvars[x["pat"]["lid"]] = atom
                     if isinstance(lo, dict) and isinstance(hi, dict):
                         self.ranges[atom] = (lo, hi)
+
+    def keep_as_atom(self, pred, name):
+        """treat every immutable let whose initialiser polynomial satisfies `pred` as the single atom `name`"""
+        for lid, init in self.lets.items():
+            p = self.poly(init)
+            if isinstance(p, dict) and pred(p):
+                self.opaque[lid] = name
 
     # canonical text of an accessor chain with immutable locals expanded
     def canon(self, e):
@@ -165,6 +173,8 @@ class Sym:
                 a = self.loopvars[lid]
                 return subst.get(a, patom(a))
             if lid in self.lets:
+                if lid in self.opaque:
+                    return patom(self.opaque[lid])
                 return self.poly(self.lets[lid], subst)
             return patom("%s#%d" % (e["name"], lid))
         if k == "Bin" and e["op"] in ("+", "-", "*"):
@@ -172,6 +182,8 @@ class Sym:
             if not isinstance(a, dict) or not isinstance(b, dict):
                 return None
             return padd(a, b) if e["op"] == "+" else padd(a, b, -1) if e["op"] == "-" else pmul(a, b)
+        if k == "Bin" and e["op"] in ("/", "%", ">>", "<<") and not subst:
+            return patom(self.canon(e))         # an opaque integer: equal text, equal value
         if k == "If" and e.get("el"):
             t = self.truth(e["c"], subst)
             if t is True:
